@@ -68,6 +68,32 @@ pub enum Control {
 	UnsetErrorHandler,
 }
 
+#[cfg(watchexec_verif)]
+impl Control {
+	/// Stable small integer per control kind, for trace points.
+	pub(crate) fn verif_kind(&self) -> usize {
+		match self {
+			Self::Start => 1,
+			Self::Stop => 2,
+			Self::GracefulStop { .. } => 3,
+			Self::TryRestart => 4,
+			Self::TryGracefulRestart { .. } => 5,
+			Self::ContinueTryGracefulRestart => 6,
+			Self::Signal(_) => 7,
+			Self::Delete => 8,
+			Self::NextEnding => 9,
+			Self::SyncFunc(_) => 10,
+			Self::AsyncFunc(_) => 11,
+			Self::SetSyncSpawnHook(_) => 12,
+			Self::SetAsyncSpawnHook(_) => 13,
+			Self::UnsetSpawnHook => 14,
+			Self::SetSyncErrorHandler(_) => 15,
+			Self::SetAsyncErrorHandler(_) => 16,
+			Self::UnsetErrorHandler => 17,
+		}
+	}
+}
+
 impl std::fmt::Debug for Control {
 	fn fmt(&self, f: &mut std::fmt::Formatter<'_>) -> std::fmt::Result {
 		match self {
@@ -136,6 +162,15 @@ impl Ticket {
 			job_gone: Flag::new(true),
 			control_done: Flag::new(true),
 		}
+	}
+}
+
+#[cfg(watchexec_verif)]
+impl Ticket {
+	/// Identities of the (job-gone, control-done) flags, for trace points.
+	#[must_use]
+	pub fn verif_ids(&self) -> (usize, usize) {
+		(self.job_gone.verif_id(), self.control_done.verif_id())
 	}
 }
 
